@@ -804,6 +804,26 @@ def check_ccsds(case):
         got = [back.date]
     if len(got) != len(dates):
         raise Violation("ccsds-count", f"{what}: {len(got)} dates read back, {len(dates)} written")
+    # the same message as another producer may spell it: the Blue Books also allow day-of-year dates and dates without
+    # decimals; the time system declared applies to them all the same
+    from datetime import date as _date
+
+    def doy(mo):
+        y, mth, d = int(mo.group(1)), int(mo.group(2)), int(mo.group(3))
+        return f"{y:04d}-{_date(y, mth, d).timetuple().tm_yday:03d}T{mo.group(4)}.{mo.group(5)}"
+
+    stamp = r"(\d{4})-(\d{2})-(\d{2})T(\d{2}:\d{2}:\d{2})\.(\d{6})"
+    spellings = [("day-of-year", re.sub(stamp, doy, txt))]
+    if all(mo.group(5) == "000000" for mo in re.finditer(stamp, txt)):
+        spellings.append(("no decimals", re.sub(stamp, lambda mo: mo.group(0)[:-7], txt)))
+    for spelling, txt2 in spellings:
+        back2 = loads(txt2)
+        got2 = ([o.date for o in back2] if kind.startswith("oem") else
+                [back2.date, back2.maneuvers[0].date] if kind == "opm-man" else [back2.date])
+        for k, (g2, g) in enumerate(zip(got2, got)):
+            if len(got2) != len(got) or t3.td_us(g2 - g) != 0 or str(g2.scale) != str(g.scale):
+                raise Violation("ccsds-date-spelling", f"{what}: with its dates spelled in the {spelling} format, date #{k} is read "
+                                f"as {g2} instead of {g}")
     if kind.startswith("oem") and any(case.get("covs") or []):
         # a covariance is written with an EPOCH of its own and re-attached by it: it must come back on its own point
         has = [getattr(o, "cov", None) is not None for o in back]
